@@ -537,6 +537,16 @@ def c03_work(item, ctx):
                 opts = {"blksize": rng.choice([1, 2, 3, 4, 7, 8, 20, 63, 64, 126, 127, rng.randint(1, 127)]),
                         "ack": rng.choice(["all", "rand", "rand"]), "vary": rng.random() < 0.4, "crc": rng.random() < 0.2}
             reps = 1 if kind == "enum" else rng.choice([1, 1, 2, 3])
+            if kind != "enum" and rng.random() < 0.15:
+                # an upload does not start from a virgin server: a conforming download (any mode, any number of segments) went before
+                wo, payload, dmode, size_ind, dopts = choose_download(rng, world, big=False)
+                dout = run.transfer(0, make_download(rng, wo, payload, dmode, size_ind, dopts))
+                if dout.kind != "ok":
+                    res.violation("c03/preceding-download", "conforming %s download of %d bytes to %04x:%02x before the upload: %s" % (
+                        dmode, len(payload), wo.idx, wo.sub, dout.deviation.desc if dout.kind == "deviation" else "abort %08x" % dout.code), sim=sim)
+                    return res
+                apply_download(wo, payload)
+                res.counters["uploads_after_a_download"] += 1
             for rep in range(reps):
                 if mode == "blk" and kind != "enum" and rng.random() < 0.12:
                     # the CAN driver refuses one data segment of the first block (transmit queue full): for the client this is a lost
